@@ -129,6 +129,31 @@ def normal_functions(res):
                                       'impl': [float(stats.norm.cdf(z)), float(stats.norm.pdf(z)), z]})
 
 
+def latent_admissible(np, kinds, p2, R):
+    """does the prescribed correlation matrix lead to a positive-definite latent matrix?  Closed forms for normal / lognormal pairs; for the
+    other families the latent entry is taken as 1.25 times the prescribed one (an upper estimate).  Margin 0.02 on the smallest eigenvalue."""
+    d = len(kinds)
+
+    def lat(i1, i2):
+        r = float(R[i1][i2])
+        k1, k2 = kinds[i1], kinds[i2]
+        if k1 == 'n' and k2 == 'n':
+            return r
+        if {k1, k2} <= {'n', 'l'}:
+            s1 = p2[i1] if k1 == 'l' else None
+            s2 = p2[i2] if k2 == 'l' else None
+            if s1 is not None and s2 is not None:
+                v = 1.0 + r * math.sqrt(math.exp(s1 * s1) - 1) * math.sqrt(math.exp(s2 * s2) - 1)
+                return math.log(v) / (s1 * s2) if v > 0 else float('nan')
+            sl = s1 if s1 is not None else s2
+            return r * math.sqrt(math.exp(sl * sl) - 1) / sl
+        return 1.25 * r
+    Zm = np.array([[1.0 if a == b2 else lat(a, b2) for b2 in range(d)] for a in range(d)], dtype=float)
+    if np.isnan(Zm).any() or (d > 1 and np.max(np.abs(Zm - np.eye(d))) >= 1.0):
+        return False
+    return bool(np.min(np.linalg.eigvalsh((Zm + Zm.T) / 2)) >= 0.02)
+
+
 def nataf_stream(res, rng, n):
     """L, L^-1, latent correlation, getU / getX and their matrices: model vs implementation"""
     core.import_impl()
@@ -157,8 +182,15 @@ def nataf_stream(res, rng, n):
             U, JU = nat.getU(x.tolist())
             X, JX = nat.getX(u.tolist())
         except Exception as e:  # noqa
-            res.failures.append({'signature': 'nataf-model:raised:' + json.dumps(case), 'clause': 'NatafTransformation raised on normal / lognormal marginals '
-                                 'with a positive-definite correlation matrix', 'input': case, 'impl_output': repr(e)[:200]})
+            # "admissible correlation matrix": the prescribed matrix must lead to a positive-definite LATENT matrix (for a lognormal variable
+            # correlated 0.6 with two mutually uncorrelated normal ones it does not: 0.6 becomes 0.71 and 1 - 0.71 sqrt 2 < 0) - the
+            # implementation is right to refuse such a problem.  Closed forms for normal / lognormal pairs; for the other families the
+            # latent entry is at most about 1.25 times the prescribed one
+            if not latent_admissible(np, kinds, p2, R):
+                res.stat('nataf_prescribed_correlation_not_admissible_for_these_marginals')
+                continue
+            res.failures.append({'signature': 'nataf-model:raised:' + json.dumps(case), 'clause': 'NatafTransformation raised on marginals and a correlation matrix '
+                                 'whose latent correlation matrix is positive definite', 'input': case, 'impl_output': repr(e)[:200]})
             continue
         case.update({'x': x.tolist(), 'u': u.tolist()})
         # in the latent normal space z_i = Phi^-1( F_i( x_i ) ) the map getX is linear, z = L u: its matrix M is read off from d + 1 evaluations,
